@@ -139,21 +139,23 @@ for _p in ("C02", "C08", "C09", "C10", "C11", "C12", "C13", "C15", "C16"):
 
 _PROBED = " Probing the unchanged tree (DESIGN.md 7.1, findings_detail/) "
 _ADD = {
-    "C01": "also decides: DISTINCT of recognised set operations read from the transform adjacent to the join; a relation taken to be defined is emitted as CTE or restored; set-operator table and quantifier decision.",
+    "C01": "also decides: DISTINCT of recognised set operations read from the transform adjacent to the join; a relation taken to be defined is emitted as CTE or restored; set-operator table and quantifier decision; the recognisers of INTERSECT / EXCEPT accept only equalities paired by position; the split itself (a popped transform is pushed back or kept, one fresh id and one redirect per column at the cut, redirect-or-identity), the id generators of the SQL backend, Pluck / BreakUp, homomorphic generic folders.",
     "C03": "also decides: Flattener state isolated for join / append arguments; an ungrouped aggregate ends the order; only plain computes hoisted over take." + _PROBED + "found one more violation (sort surviving an ungrouped aggregate), since repaired.",
     "C04": "also decides: partition / frame do not leak into joined pipelines; RANGE offsets need a sort.",
-    "C05": "also decides: star handling (adjacent absorption, options on both star forms), all-or-nothing s-string column extraction." + _PROBED + "found accepted programs whose result columns bind to the wrong relation after a split; no rule detects them.",
+    "C05": "also decides: star handling (adjacent absorption, options on both star forms), all-or-nothing s-string column extraction, the frame table of determine_select_columns." + _PROBED + "found accepted programs whose result columns bind to the wrong relation after a split; no rule detects them.",
     "C07": "also decides: clause phases (pre_projection / allow_stars), set-operation tables, flags written inside their query scope, per-SELECT relation names, fold exhaustiveness, RANGE frames with ORDER BY." + _PROBED + "found 18 accepted programs whose SQL sqlite rejects; 3 became rules, 15 are not detected by any rule.",
-    "C08": "also decides: no text edit between the generated statement and the output, none on the way into a string literal; quotes read while probing a delimiter are restored.",
+    "C08": "also decides: no text edit between the generated statement and the output, none on the way into a string literal; quotes read while probing a delimiter are restored; strings and raw strings translated alike; escapes decoded independently of the delimiter length.",
     "C09": "also decides: exact alias comparison, whole-identifier keys for de-duplication and for taken table names.",
     "C10": "also decides: scope pairing, rejections reachable, positive sub-type shortcuts, pass-through only without target, strip only the prepended module path, untyped operator is not a table." + _PROBED + "found two accepted ambiguous programs (same-named inputs overwrite each other in Module::insert_frame); not detected by any rule.",
     "C11": "also decides: source ids never ordering keys; no hash container debug-printed into error text; fallible steps over hash iterations.",
-    "C12": "R9 lists 42 panic sites that probing reached with ordinary inputs (37 repaired, 5 known): the class reviews of R1 are human judgements and were wrong for those sites.",
+    "C12": "R9 lists 42 panic sites that probing reached with ordinary inputs (37 repaired, 5 known): the class reviews of R1 are human judgements and were wrong for those sites. R12 / R13 turn two such beliefs into checked obligations (a conversion unwrapped in a callee is made fallibly by every caller; every resolver TableDecl gets a relation type).",
     "C13": "also decides: spans that name no file of the tree are cleared." + _PROBED + "found eight further causes of imprecise (not out-of-file) locations; not rules.",
     "C14": "R14: eleven causes found by probing the formatter (6 repaired, 3 known, 2 variants of known findings); R11-R13 operands through write_within, raw names, aliases kept.",
     "C15": "also decides: serde_json float_roundtrip, reader depth bound (known), Span reader total." + _PROBED + "(~1 500 programs through both paths) found no further violation.",
-    "C17": _PROBED.strip() + " enumerated 37 M short strings and 8 M random token concatenations against the tiling / re-lex clauses: no violation beyond the known end_expr look-ahead class.",
+    "C17": _PROBED.strip() + " enumerated 37 M short strings and 8 M random token concatenations against the tiling / re-lex clauses: no violation beyond the known end_expr look-ahead class. R6: every look-ahead of the lexer is consumed by the same token or accepts end of input.",
     "C18": "also decides: identity of the passed dialect, accepted target names = displayed names.",
+    "C06": "also decides (borrowed or own): a let table referenced twice is defined or restored, a user-function call is its materialised body (only span overridden), merged takes compose like nested sub-queries, computes stay behind a take.",
+    "C02": "also decides: binding strength is not erased across two functions (a flattener's result re-wrapped as an operand).",
 }
 for _p, _t in _ADD.items():
     CLAIMS[_p]["note"] = CLAIMS[_p]["note"].rstrip() + " " + _t
